@@ -136,6 +136,20 @@ fn space(sink: &mut Sink, rng: &mut Rng, thorough: bool) {
       8 => { let e = rng.below(4); mixed(rng, 1, 4, e) }
       9 => { let e = 1 + rng.below(6); mixed(rng, 1, 12, e) }
       0 => (0..ncell).filter(|_| rng.chance(1, 6)).collect(),
+      // almost everything, with HOLES of different shapes: a whole coarse cell (few big cells once normalised), a small
+      // ragged hole made of deepest cells, single cells (which holes `fill_holes` keeps must follow the AREA, not the
+      // number of cells of the normalised component)
+      1 if depth >= 1 && i % 20 == 1 => {
+        sink.count("space-shape:holes-of-mixed-granularity");
+        let shift = 2 * depth as u64;
+        let big = rng.below(12);
+        let mut holes: BTreeSet<u64> = ((big << shift)..((big + 1) << shift)).collect();
+        let other = (big + 1 + rng.below(11)) % 12;
+        let base = other << shift;
+        for k in 0..(2 + rng.below(2)) { holes.insert(base + k); }
+        if rng.chance(1, 2) { holes.insert(((other + 5) % 12) << shift); }
+        all.iter().cloned().filter(|c| !holes.contains(c)).collect()
+      }
       1 => (0..ncell).filter(|_| rng.chance(4, 5)).collect(),
       2 => {
         let c = rng.below(ncell);
